@@ -50,7 +50,7 @@ func c02(r *rep.Run) {
 		coreMax, richMax = 7, 7
 		r.SetBudget(1500e9)
 	}
-	r.Rule = "every CORE/RICH program up to the node bound x 16 optimisation subsets x {events off, ReportEvent} + 8 cost maps (negative, zero, huge, +-Inf, NaN, per-name and per-class) on the Reordering subsets + in-source directive renderings of each subset (5 spellings; must give the identical Dump and DumpTable as the programmatic options, also when the config says the opposite) x every value binding of all variables; oracles: (1) all configurations that return a value agree, (2) if total evaluation R3 succeeds every configuration returns its value, (3) with Reordering off every configuration returns R1's value whenever R1 succeeds. non-trivial = (program,binding) pairs in which some sub-expression fails or some configuration errs"
+	r.Rule = "every CORE/RICH program up to the node bound x 16 optimisation subsets x {events off, ReportEvent} + 8 cost maps (negative, zero, huge, +-Inf, NaN, per-name and per-class) on the Reordering subsets + in-source directive renderings of each subset (5 spellings; must give the identical Dump and DumpTable as the programmatic options, also when the config says the opposite) x every value binding of all variables; the config also registers a (wrong) operator under every builtin name and alias; oracles: (1) all configurations that return a value agree, (2) if total evaluation R3 succeeds every configuration returns its value, (3) with Reordering off every configuration returns R1's value whenever R1 succeeds. non-trivial = (program,binding) pairs in which some sub-expression fails or some configuration errs"
 	r.Assume = []string{"small-scope hypothesis on tree size (optimizer rewrites are local: fold a node, splice a child list, flag a two-leaf operator, sort one child list)",
 		"cost maps are drawn from a fixed family of 8 extreme maps, not all float64 maps"}
 	r.Cov["bounds"] = map[string]int{"core_max_nodes": coreMax, "rich_max_nodes": richMax}
@@ -64,6 +64,13 @@ func c02(r *rep.Run) {
 	progs = withMerged(progs, 5)
 	r.Cov["programs_incl_alias_spellings"] = len(progs)
 	hs := harnesses(r.Workers)
+	for _, h := range hs {
+		// the caller's config also registers operators under every builtin
+		// name and alias: the builtin meaning must win in every subset alike
+		for name := range ref.Alias {
+			h.Register(name, func([]interface{}) (interface{}, error) { return "SHADOWED-BUILTIN", nil })
+		}
+	}
 	base := optMatrix(0, 1)
 	for _, o := range optMatrix(0) {
 		o.Undef = 1 // every variable resolved by name (undefined-variable mode)
